@@ -578,8 +578,8 @@ func (r *Runtime) object_fromEntries(call FunctionCall) Value {
 		i1 := valueInt(1)
 
 		itemObj := r.toObject(nextValue)
-		k := itemObj.self.getIdx(i0, nil)
-		v := itemObj.self.getIdx(i1, nil)
+		k := nilSafe(itemObj.self.getIdx(i0, nil)) // a missing element reads as undefined
+		v := nilSafe(itemObj.self.getIdx(i1, nil))
 		key := toPropertyKey(k)
 
 		createDataPropertyOrThrow(result, key, v)
